@@ -7,6 +7,8 @@ import (
 	"os"
 	"os/exec"
 	"path/filepath"
+	"sort"
+	"strconv"
 	"strings"
 	"time"
 
@@ -28,6 +30,7 @@ func TryReplay(w *World, r *HarnessResult, o *Obligation, replayPath string) (bo
 	e := r.engine
 	c := e.C
 	fn := r.Harness.Fn
+	replayImports, replayPkg = map[string]bool{}, fn.Pkg.Pkg
 	if fn.Signature.Recv() != nil || fn.TypeParams().Len() > 0 || len(fn.TypeArgs()) > 0 {
 		return note("harness shape not supported by the replay generator (method or generic)")
 	}
@@ -176,18 +179,8 @@ func TryReplay(w *World, r *HarnessResult, o *Obligation, replayPath string) (bo
 								parts = append(parts, goIntLit(s.elem, elems[i]))
 							}
 						}
-						ts := types.TypeString(s.typ, func(p *types.Package) string {
-							if p == fn.Pkg.Pkg {
-								return ""
-							}
-							return p.Name()
-						})
-						es := types.TypeString(s.elem, func(p *types.Package) string {
-							if p == fn.Pkg.Pkg {
-								return ""
-							}
-							return p.Name()
-						})
+						ts := types.TypeString(s.typ, replayQualifier)
+						es := types.TypeString(s.elem, replayQualifier)
 						args = append(args, fmt.Sprintf("append(make(%s, 0, %d), []%s{%s}...)", ts, capv, es, strings.Join(parts, ", ")))
 					}
 				}
@@ -201,10 +194,22 @@ func TryReplay(w *World, r *HarnessResult, o *Obligation, replayPath string) (bo
 	return false, ""
 }
 
+// replayImports collects the packages the generated literals refer to (reset per replay).
+var replayImports = map[string]bool{}
+var replayPkg *types.Package
+
+func replayQualifier(p *types.Package) string {
+	if p == nil || p == replayPkg {
+		return ""
+	}
+	replayImports[p.Path()] = true
+	return p.Name()
+}
+
 func goIntLit(t types.Type, v uint64) string {
 	b := t.Underlying().(*types.Basic)
 	w := basicWidth(b)
-	name := types.TypeString(t, func(p *types.Package) string { return "" })
+	name := types.TypeString(t, replayQualifier)
 	if b.Info()&types.IsUnsigned != 0 {
 		if w < 64 {
 			v &= (uint64(1) << uint(w)) - 1
@@ -245,7 +250,7 @@ func runReplay(w *World, r *HarnessResult, o *Obligation, replayPath string, arg
 import (
 	"fmt"
 	"testing"
-)
+%s)
 
 // Generated by govc: replays the solver's counterexample for obligation
 //   %s
@@ -275,7 +280,7 @@ func TestGovcReplay(t *testing.T) {
 	}
 	fmt.Printf("GOVC-REPLAY: not reproduced (failed assertions: %%v)\n", vFailures)
 }
-`, fn.Pkg.Pkg.Name(), o.Name, fn.Name(), strings.Join(args, ", "), isSafety, label)
+`, fn.Pkg.Pkg.Name(), extraImports(), o.Name, fn.Name(), strings.Join(args, ", "), isSafety, label)
 	tmp, err := os.MkdirTemp("", "govc-replay-")
 	if err != nil {
 		return false, err.Error()
@@ -314,4 +319,17 @@ func appendFile(path, s string) {
 	}
 	defer f.Close()
 	f.WriteString(s)
+}
+
+func extraImports() string {
+	var ps []string
+	for p := range replayImports {
+		ps = append(ps, p)
+	}
+	sort.Strings(ps)
+	s := ""
+	for _, p := range ps {
+		s += "\t" + strconv.Quote(p) + "\n"
+	}
+	return s
 }
